@@ -30,3 +30,54 @@ class TimeSleep(Contract):
 def register(reg):
     reg.add_extern('time.time', TimeTime)
     reg.add_extern('time.sleep', TimeSleep)
+    register_re(reg)
+
+
+class ReSearch(Contract):
+    """re.Pattern.search(buffer, pos): None, or a match object m with pos <= m.start() <= m.end() <= len(buffer).
+    ReFind(r, buffer, pos) names the selected start (-1 = none); which occurrence the engine selects is the
+    regex engine's business (assumed: leftmost from pos, per the re documentation)."""
+    params = ['r', 'buffer', 'pos']
+    defaults = {'pos': 0}
+
+    def outcomes(self, v):
+        def mk(interp, pre):
+            from pyvc.values import VAny
+            import z3
+            return VAny(ReMatch(pre.a.r, pre.a.buffer, pre.a.pos if is_sym(pre.a.pos) else z3.IntVal(pre.a.pos)), notnone=True)
+        return [Ret(T.NoneT, 'nomatch'), Ret(T.Any, 'match', make=mk)]
+
+    def ensures(self, v):
+        r, buf, pos = v.old.r, v.old.buffer, v.old.pos
+        f = re_find(r, buf, pos)
+        if v.label == 'nomatch':
+            return [('none', eq(f, -1))]
+        m = v.result
+        return [('span', And(eq(re_match_start(m), f), pos <= f, 0 <= f, f <= re_match_end(m),
+                             re_match_end(m) <= length(buf)))]
+
+
+class MatchStart(Contract):
+    params = ['m']
+
+    def outcomes(self, v):
+        return [Ret(T.Int)]
+
+    def ensures(self, v):
+        return [('start', eq(v.result, re_match_start(v.old.m)))]
+
+
+class MatchEnd(Contract):
+    params = ['m']
+
+    def outcomes(self, v):
+        return [Ret(T.Int)]
+
+    def ensures(self, v):
+        return [('end', eq(v.result, re_match_end(v.old.m)))]
+
+
+def register_re(reg):
+    reg.add_extern('opaque.search', ReSearch)
+    reg.add_extern('opaque.start', MatchStart)
+    reg.add_extern('opaque.end', MatchEnd)
